@@ -92,12 +92,14 @@ struct Lossy {
     const int u = dfs / 400;                       // 2.5 ms at the receiver rate
     size_t npk = log.size(), pci = 0;
     std::vector<float> recentL;                    // last second of L output (for the boundedness clause)
+    std::vector<double> ref_peak;                  // peak of the loss-free twin's output per packet
+    struct Pending { size_t k; double pk; bool fec; int mode; }; std::vector<Pending> pending;   // isolated concealed frames waiting for packet k+1 of the reference
     const size_t recent_cap = (size_t)dfs * dch;        // 1 s
     auto push_recent = [&](const std::vector<float> &v) { recentL.insert(recentL.end(), v.begin(), v.end()); if (recentL.size() > recent_cap) recentL.erase(recentL.begin(), recentL.end() - (long)recent_cap); };
     // recovery bookkeeping
     long last_loss = -1; double rec_err = 0, rec_ref = 0; long rec_samples = 0; int64_t since_resume48 = 0; bool all_celt_since = true, flushed = false; int64_t silent_run48 = 0, since_flush48 = 0;
     // decay bookkeeping
-    double preloss_rms = 0; int64_t conceal_run48 = 0, active_run48 = 0; double decay_last_rms = -1;
+    double preloss_rms = 0; int64_t conceal_run48 = 0, active_run48 = 0; double decay_last_rms = -1; bool cng_may_be_armed = false; int64_t clean_run48 = 0;
     // FEC probe accumulators
     double fec_err = 0, plc_err = 0, fec_lvl_err = 0, plc_lvl_err = 0; long fec_events = 0, fec_worse = 0;
     for (size_t k = 0; k < npk; k++) {
@@ -107,6 +109,17 @@ struct Lossy {
       std::vector<float> pr, pl, pp; bool fin = true, can = true;
       int rr = Rd.decode(rc.pkt.data(), (int)rc.pkt.size(), n, 0, FMT_F32, &pr, nullptr, &can, &fin);
       if (rr != n) REPORT(run, prop, "reference_decode_wrong_count", "packet %zu: %d vs %d", k, rr, n);
+      ref_peak.push_back(peak(pr));
+      while (!pending.empty() && pending.front().k + 1 <= k) {
+        Pending q = pending.front(); pending.erase(pending.begin());
+        double nb = 0; for (size_t j = q.k - 2; j <= q.k + 1 && j < ref_peak.size(); j++) nb = std::max(nb, ref_peak[j]);
+        if (nb >= 0.01) {
+          long milli = (long)(q.pk / nb * 1000); if (run.stat["max:conceal_vs_neighbourhood_milli"] < milli) run.stat["max:conceal_vs_neighbourhood_milli"] = milli;
+          run.count("bounded_neighbourhood_checked");
+          if (getenv("OPSIM_CALIB") && milli > 1200) fprintf(stderr, "C09NB ratio=%.3f nb=%.4f pk=%.4f mode=%d fec=%d seed=%llu k=%zu\n", milli / 1000.0, nb, q.pk, q.mode, (int)q.fec, (unsigned long long)cur_seed, q.k);
+          if (q.pk > KAPPA_NB * nb) REPORT(run, prop, "isolated_concealment_louder_than_neighbourhood", "concealed frame peak %.4f vs %.4f in the loss-free twin's packets %zu..%zu (x%.1f)", q.pk, nb, q.k - 2, q.k + 1, q.pk / nb);
+        }
+      }
       if (Rd.final_range() != rc.enc_range) REPORT(run, prop, "reference_final_range_mismatch", "packet %zu", k);
       run.sim_samples48 += rc.frame48;
       if (!rc.lost) {
@@ -119,7 +132,9 @@ struct Lossy {
         run.api_ok += 2; run.count("rx_received");
         if (conceal_run48 > 0) { conceal_run48 = 0; }
         preloss_rms = sqrt(energy(pl) / std::max<size_t>(1, pl.size()));
+        clean_run48 += rc.frame48;
         if (rc.vad_active) active_run48 += rc.frame48; else active_run48 = 0;
+        if (rc.mode != 2 && !rc.vad_active) cng_may_be_armed = true;
         // ---- recovery: L converges back to R once losses stop
         if (last_loss >= 0 && run.verbose) { double e = 0, er = energy(pr); for (size_t i = 0; i < pr.size() && i < pl.size(); i++) { double d = (double)pl[i] - pr[i]; e += d * d; }
           printf("ok k=%zu toc=%02x mode=%d fam=%d silent=%d errdb=%.1f rmsR=%.4f rmsL=%.4f since=%lld\n", k, rc.pkt[0], rc.mode, rc.fam, (int)rc.silent_in, er > 0 ? 10 * log10(std::max(e / er, 1e-12)) : -999.0, sqrt(er / pr.size()), sqrt(energy(pl) / pl.size()), (long long)(since_resume48 / 48)); }
@@ -195,6 +210,16 @@ struct Lossy {
           if (pk > KAPPA * std::max(recent_peak, 0.001) && pk > 0.01) REPORT(run, prop, "concealed_output_not_bounded", "peak %.4f vs recent peak %.4f (x%.1f), packet %zu, %s", pk, recent_peak, pk / std::max(recent_peak, 1e-4), k, used_fec ? "FEC" : "PLC");
         }
       }
+      // ---- bounded, sharper form for isolated losses: the concealed frame against what the loss-free twin plays in the same
+      // neighbourhood (packets k-2 .. k+1) - an extrapolation of a healthy state cannot be much louder than the signal around it
+      // (only while the comfort-noise generator has nothing to play: once a SILK packet flagged as inactive has been received, the level
+      //  added to every concealed frame is that of the learnt background, by design unrelated to the signal around the loss)
+      // (and only where the decoder can be taken to be in step with the encoder: no loss during the previous second, not within the first
+      //  second of the stream, and speech-like or noise-like material - a SILK decoder whose predictor state differs from the encoder's can
+      //  ring up on steady tones and sweeps for hundreds of milliseconds, see DESIGN.md 10.4)
+      bool benign_src = rc.fam == SRC_VOICED || rc.fam == SRC_STEADYVOICED || rc.fam == SRC_NOISE || rc.fam == SRC_SILENCE;
+      if (concealment_only && !cng_may_be_armed && benign_src && clean_run48 >= 150 * 48 && S.t48 >= 0 && k >= 2 && !log[k - 1].lost) pending.push_back(Pending{k, peak(pl), used_fec, rc.mode});
+      clean_run48 = 0;
       // ---- decay under sustained loss (decay-probe sessions: loud voiced / tonal burst after a quiet lead-in)
       conceal_run48 += rc.frame48;
       // (SILK's comfort-noise generator keeps, by design, the level of what the encoder flagged as inactive background: the decay clause is
@@ -231,7 +256,7 @@ struct Lossy {
     }
   }
   // calibrated bounds (calib/thresholds.json C09.*)
-  static constexpr double KAPPA = 14.0, RHO = 0.1, ALPHA = 0.4, THETA_DB = -20.0;
+  static constexpr double KAPPA_NB = 6.0; static constexpr double KAPPA = 14.0, RHO = 0.1, ALPHA = 0.4, THETA_DB = -20.0;
   void finish_recovery(double err, double ref, long samples, bool celt) {
     if (ref <= 0) return;
     double db = 10 * log10(std::max(err / ref, 1e-12));
